@@ -240,8 +240,9 @@ theorem splitHost_join (ds : List Bytes) (l : Bytes) (hl : l ≠ [])
 
 -- =============================================================== part 2 ==
 
-/-- names the theorems speak about: not empty, not starting with a dot (the
-    code panics on those), and free of `/` (the trie's regex syntax) -/
+/-- names the trie can hold as literal keys: not empty, not starting with a dot
+    (`TrieNode::insert` panics on those), free of `/` (the trie's regex syntax).
+    `CertifiedKeyWrapper::try_from` refuses every other name (`validCertName_iff`). -/
 def GoodName (n : Bytes) : Prop := n ≠ [] ∧ n.head? ≠ some DOT ∧ SLASH ∉ n
 
 /-- server names the theorems speak about: not empty, not starting with a dot -/
@@ -759,44 +760,70 @@ theorem agree_replace {s : State} (h : Agree s) (old : Option Fp) (c : Cert)
     | none => exact agree_add h c hg
     | some o => exact agree_remove (agree_add h c hg) o
 
-/-- the histories the theorems quantify over: every certificate that is added
-    carries good names only (see `GoodName`) -/
-def GoodOp : Op → Prop
-  | .add c => ∀ n ∈ c.names, GoodName n
-  | .replace _ c => ∀ n ∈ c.names, GoodName n
-  | _ => True
+theorem validCertName_iff (n : Bytes) : validCertName n = true ↔ GoodName n := by
+  unfold validCertName GoodName
+  cases n with
+  | nil => simp
+  | cons x xs => simp [List.isEmpty]
+
+/-- what `try_from` lets through carries good names only, under the same fingerprint -/
+theorem prepare_good {c c' : Cert} (h : prepare c = some c') :
+    c'.fp = c.fp ∧ c'.exp = c.exp ∧ c'.names = c.names.map normCertName ∧ ∀ n ∈ c'.names, GoodName n := by
+  unfold prepare at h
+  simp only [] at h
+  split at h
+  · next hall =>
+    cases h
+    refine ⟨rfl, rfl, rfl, ?_⟩
+    intro n hn
+    exact (validCertName_iff n).mp (List.all_eq_true.mp hall n hn)
+  · cases h
 
 /-- the state after one op, when nothing panics -/
 def apply (s : State) : Op → State
-  | .add c => add s c
+  | .add c => match prepare c with | some c' => add s c' | none => s
   | .addInvalid => s
   | .remove fp => remove s fp
-  | .replace old c => replace s old c
+  | .replace old c => match prepare c with | some c' => replace s old c' | none => s
   | .replaceInvalid _ => s
 
-theorem agree_apply {s : State} (h : Agree s) (op : Op) (hg : GoodOp op) : Agree (apply s op) := by
+theorem agree_apply {s : State} (h : Agree s) (op : Op) : Agree (apply s op) := by
   cases op with
-  | add c => exact agree_add h c hg
+  | add c =>
+    simp only [apply]
+    cases hp : prepare c with
+    | none => exact h
+    | some c' => exact agree_add h c' (prepare_good hp).2.2.2
   | addInvalid => exact h
   | remove fp => exact agree_remove h fp
-  | replace old c => exact agree_replace h old c hg
+  | replace old c =>
+    simp only [apply]
+    cases hp : prepare c with
+    | none => exact h
+    | some c' => exact agree_replace h old c' (prepare_good hp).2.2.2
   | replaceInvalid o => exact h
 
-theorem step_eq_apply {s : State} (h : Agree s) (op : Op) (hg : GoodOp op) :
-    (step s op).1 = apply s op := by
-  have hal := (agree_apply h op hg).a.alive
-  cases op <;> simp [step, h.a.alive, apply] at hal ⊢ <;> simp [hal]
+theorem step_eq_apply {s : State} (h : Agree s) (op : Op) : (step s op).1 = apply s op := by
+  have hal := (agree_apply h op).a.alive
+  cases op with
+  | add c =>
+    cases hp : prepare c <;> simp [step, h.a.alive, apply, hp] at hal ⊢ <;> simp [hal]
+  | replace old c =>
+    cases hp : prepare c <;> simp [step, h.a.alive, apply, hp] at hal ⊢ <;> simp [hal]
+  | addInvalid => simp [step, h.a.alive, apply]
+  | remove fp => simp [step, h.a.alive, apply] at hal ⊢; simp [hal]
+  | replaceInvalid o => simp [step, h.a.alive, apply]
 
-theorem agree_step {s : State} (h : Agree s) (op : Op) (hg : GoodOp op) : Agree (step s op).1 := by
-  rw [step_eq_apply h op hg]; exact agree_apply h op hg
+theorem agree_step {s : State} (h : Agree s) (op : Op) : Agree (step s op).1 := by
+  rw [step_eq_apply h op]; exact agree_apply h op
 
-theorem agree_run (ops : List Op) : ∀ (s : State), Agree s → (∀ op ∈ ops, GoodOp op) → Agree (run s ops) := by
+theorem agree_run (ops : List Op) : ∀ (s : State), Agree s → Agree (run s ops) := by
   induction ops with
-  | nil => intro s h _; exact h
+  | nil => intro s h; exact h
   | cons op ops ih =>
-    intro s h hg
+    intro s h
     simp only [run, List.foldl_cons]
-    exact ih _ (agree_step h op (hg op (by simp))) (fun o ho => hg o (List.mem_cons_of_mem _ ho))
+    exact ih _ (agree_step h op)
 
 theorem run_append (s : State) (a b : List Op) : run s (a ++ b) = run (run s a) b := by
   simp [run, List.foldl_append]
@@ -900,37 +927,42 @@ theorem get_certs_apply_none (s : State) (op : Op) (fp : Fp) (h : KMap.get? s.ce
     (hop : ¬ AddsFp fp op) : KMap.get? (apply s op).certs fp = none := by
   cases op with
   | add c =>
-    have : fp ≠ c.fp := fun e => hop e.symm
-    simp only [apply]; rw [get_certs_add s c fp this]; exact h
+    simp only [apply]
+    cases hp : prepare c with
+    | none => exact h
+    | some c' =>
+      have : fp ≠ c'.fp := fun e => hop (by rw [AddsFp, ← (prepare_good hp).1]; exact e.symm)
+      simp only []; rw [get_certs_add s c' fp this]; exact h
   | addInvalid => exact h
   | remove o => simp only [apply, get_certs_remove]; split <;> simp [h]
   | replaceInvalid o => exact h
   | replace old c =>
-    have hne : fp ≠ c.fp := fun e => hop e.symm
-    simp only [apply, replace]
-    split
-    · exact h
-    · cases old with
-      | none => simp only []; rw [get_certs_add s c fp hne]; exact h
-      | some o =>
-        simp only [get_certs_remove]
-        split
-        · rfl
-        · rw [get_certs_add s c fp hne]; exact h
+    simp only [apply]
+    cases hp : prepare c with
+    | none => exact h
+    | some c' =>
+      have hne : fp ≠ c'.fp := fun e => hop (by rw [AddsFp, ← (prepare_good hp).1]; exact e.symm)
+      simp only [replace]
+      split
+      · exact h
+      · cases old with
+        | none => simp only []; rw [get_certs_add s c' fp hne]; exact h
+        | some o =>
+          simp only [get_certs_remove]
+          split
+          · rfl
+          · rw [get_certs_add s c' fp hne]; exact h
 
 theorem not_stored_run (fp : Fp) (ops : List Op) :
     ∀ s : State, Agree s → KMap.get? s.certs fp = none →
-      (∀ op ∈ ops, GoodOp op) → (∀ op ∈ ops, ¬ AddsFp fp op) →
-      KMap.get? (run s ops).certs fp = none := by
+      (∀ op ∈ ops, ¬ AddsFp fp op) → KMap.get? (run s ops).certs fp = none := by
   induction ops with
-  | nil => intro s _ h _ _; exact h
+  | nil => intro s _ h _; exact h
   | cons op ops ih =>
-    intro s ha h hg hn
+    intro s ha h hn
     simp only [run, List.foldl_cons]
-    have hop := hg op (by simp)
-    refine ih _ (agree_step ha op hop) ?_ (fun o ho => hg o (List.mem_cons_of_mem _ ho))
-      (fun o ho => hn o (List.mem_cons_of_mem _ ho))
-    rw [step_eq_apply ha op hop]
+    refine ih _ (agree_step ha op) ?_ (fun o ho => hn o (List.mem_cons_of_mem _ ho))
+    rw [step_eq_apply ha op]
     exact get_certs_apply_none s op fp h (hn op (by simp))
 
 -- ---- the states inside one add / remove (name by name)
